@@ -133,6 +133,9 @@ func seqClasses(c seqCase) []string {
 			if r.Len > 4096 && w > 4096 {
 				out = append(out, "physical-line>4096")
 			}
+			if r.Len >= 65536 && w >= 65536 {
+				out = append(out, "physical-line>=65536")
+			}
 			if r.Len > 4096 {
 				out = append(out, "seq>4096")
 			}
@@ -141,6 +144,9 @@ func seqClasses(c seqCase) []string {
 		for _, r := range f.Recs {
 			if r.Len > 4096 {
 				out = append(out, "physical-line>4096")
+			}
+			if r.Len >= 65536 {
+				out = append(out, "physical-line>=65536")
 			}
 		}
 	}
@@ -175,7 +181,7 @@ func genSeqCase(format string) func(t *rapid.T) seqCase {
 
 func TestFastaLayout(t *testing.T) {
 	vlib.Run(t, vlib.Prop[seqCase]{Name: "fasta-layout", Checks: 2500, Thorough: 200000, Gen: genSeqCase("fasta"), Check: checkSeq, Classes: seqClasses,
-		MinFrac: map[string]float64{"crlf": 0.25, "no-final-eol": 0.25, "blank-lines": 0.2, "rewrapped": 0.3, "physical-line>4096": 0.02, "last-line-multiple-of-4096+no-final-eol": 0.02}})
+		MinFrac: map[string]float64{"crlf": 0.25, "no-final-eol": 0.25, "blank-lines": 0.2, "rewrapped": 0.3, "physical-line>4096": 0.02, "physical-line>=65536": 0.0005, "last-line-multiple-of-4096+no-final-eol": 0.02}})
 }
 
 func TestFastqLayout(t *testing.T) {
